@@ -230,9 +230,17 @@ def gen_case(rng, big):
         c, cls = chunk_axis(rng, shape[d], max(1, wrel) if d == ax or kind in ("swv2d", "overlap", "map_overlap", "gradient") else 2)
         chunks.append(list(c))
         classes.append(cls)
+    if kind == "map_overlap" and nd == 2 and shape[0] >= 1 and shape[1] >= 2 and rng.random() < 0.25:
+        # drop_axis together with a per-axis boundary dict: the kept overlapped axis has its own boundary kind
+        p["drop0"] = {"d": rng.randint(1, min(3, shape[1])), "bkinds": [rng.choice(["none", "reflect", "periodic", "nearest", 0]) for _ in range(2)]}
+        chunks[0] = [shape[0]]
     p["chunks"] = chunks
     p["cls"] = classes[ax]
     return p
+
+
+def _sum_axis0(b):
+    return b.sum(axis=0)
 
 
 def depth_arg(p, nd):
@@ -326,6 +334,13 @@ def check_case(p, ctx):
                             return [("overlap_size", f"{label}: overlapped axis {d} has total size {tot}, expected {inner} (chunks {g.chunks[d]})", f"overlap:size:{p['boundary']}")], True, label
                     if gv.shape != tuple(sum(c) for c in g.chunks):
                         return [("overlap_shape", f"{label}: computed overlapped shape {gv.shape} != advertised {tuple(sum(c) for c in g.chunks)}", f"overlap:shape:{p['boundary']}")], True, label
+                elif kind == "map_overlap" and p.get("drop0"):
+                    d0 = p["drop0"]
+                    bk = {0: d0["bkinds"][0], 1: d0["bkinds"][1]}
+                    y = da.map_overlap(_sum_axis0, x, depth={0: 0, 1: d0["d"]}, boundary=bk, drop_axis=0, dtype=a.dtype)
+                    ev = a.sum(axis=0).astype(a.dtype)  # the halos along the kept axis are trimmed again: no window in the kernel
+                    label = f"map_overlap.drop_axis.{bk[0]}.{bk[1]}"
+                    ctx.count("map_overlap_drop_axis_cases")
                 elif kind == "map_overlap":
                     lo, hi = p["lo"], p["hi"]
                     padded, plo, phi = pad_whole(a, lo, hi, p["boundary"])
